@@ -827,7 +827,12 @@ impl Gen {
         } else {
             self.expr(&ret, 2)
         };
-        if self.chance(0.3) {
+        if !recursive && self.chance(0.06) {
+            // the body ends in an `als` without `anders` whose branch leaves with `antwoord`:
+            // when it is not taken the function ends there (its value is null)
+            let c = self.bool_expr(1, false);
+            body.push(Stmt::Expr(Expr::If { c: b(c), th: vec![Stmt::Return(result)], el: None }));
+        } else if self.chance(0.3) {
             body.push(Stmt::Return(result));
         } else {
             let t = self.tail(result);
